@@ -223,7 +223,7 @@ def check_oracle(ck, tpl, files, q, kind, val, case, black_ok):
     byid = {f.id: f for f in files}
     s, e = q["start"], q["end"]
     label = lambda what: classify(tpl, what)
-    if s is not None and e is not None and e <= s:
+    if (G.MAX if e is None else e) <= (G.MIN if s is None else s):
         if (kind, val) != ("err", "valueError"):
             ck.violation(label(""), f"find with end <= start gave {kind} {val}, expected ValueError", case)
         return
